@@ -388,7 +388,7 @@ package allocation
 //@   requires allocsNonNil(m) && forall k :: haskey(m.allocations, k) ==> tcpConnsWF(valat(m.allocations, k))
 //@   requires [C03:authed] authOK && userID == authUser
 //@   ensures [C03,C16:single-use] res != nil ==> exists k :: haskey(m.allocations, k) && valat(m.allocations, k).userID == userID && has(valat(m.allocations, k).tcpConnections, connectionID) && res == valat(m.allocations, k).tcpConnections[connectionID] && !old(atomic(valat(m.allocations, k).tcpConnections[connectionID].isBound)) && atomic(valat(m.allocations, k).tcpConnections[connectionID].isBound)
-//@   ensures [C03,C16:refusal-no-effect] res == nil && (forall k :: haskey(m.allocations, k) && has(valat(m.allocations, k).tcpConnections, connectionID) ==> valat(m.allocations, k).userID != userID) ==> atomicsOf("allocation.tcpConnection.isBound") == old(atomicsOf("allocation.tcpConnection.isBound"))
+//@   ensures [C03,C04,C16:refusal-no-effect] res == nil && (forall k :: haskey(m.allocations, k) && has(valat(m.allocations, k).tcpConnections, connectionID) ==> valat(m.allocations, k).userID != userID) ==> atomicsOf("allocation.tcpConnection.isBound") == old(atomicsOf("allocation.tcpConnection.isBound"))
 //@   assigns atomics("allocation.tcpConnection.isBound"), timers
 //@   loop 0 invariant allocsNonNil(m) && (forall k :: haskey(m.allocations, k) ==> tcpConnsWF(valat(m.allocations, k)))
 
